@@ -11,6 +11,7 @@ import (
 	"context"
 	"fmt"
 	"sort"
+	"strings"
 	"sync"
 	"testing"
 	"time"
@@ -288,7 +289,7 @@ func body(c *kernel.Ctx) {
 		total++
 		c.State(hashStr("crafted|" + a.class))
 		want := 0
-		if a.class == "control/valid-signed-next-epoch-duty" {
+		if strings.HasPrefix(a.class, "control/") {
 			want = 1
 		}
 		if dq != want {
@@ -465,6 +466,39 @@ func alterations(cl *cluster.Cluster, m, other *pbv1.QBFTConsensusMsg, n int) []
 			out = append(out, a)
 		}
 	}
+	// an altered copy of a justification next to the authentic one, carrying the same signature bytes
+	// (before and after it): authenticity must be judged per message content, not per signature seen
+	for j := range m.GetJustification() {
+		if j >= 2 {
+			break
+		}
+		for _, mutate := range []struct {
+			tag string
+			f   func(q *pbv1.QBFTMsg)
+		}{
+			{"round+1", func(q *pbv1.QBFTMsg) { q.Round++ }},
+			{"peer-idx", func(q *pbv1.QBFTMsg) { q.PeerIdx = (q.PeerIdx + 1) % int64(n) }},
+			{"type", func(q *pbv1.QBFTMsg) { q.Type = q.Type%4 + 1 }},
+			{"prepared-round", func(q *pbv1.QBFTMsg) { q.PreparedRound++ }},
+		} {
+			alt1 := proto.Clone(m.Justification[j]).(*pbv1.QBFTMsg)
+			mutate.f(alt1)
+			after := cloneMsg(m)
+			after.Justification = append(after.Justification, alt1)
+			out = append(out, alt{class: "just-copy/after-original/" + mutate.tag, msg: after})
+			before := cloneMsg(m)
+			before.Justification = append([]*pbv1.QBFTMsg{proto.Clone(alt1).(*pbv1.QBFTMsg)}, before.Justification...)
+			out = append(out, alt{class: "just-copy/before-original/" + mutate.tag, msg: before})
+		}
+	}
+	// the top-level message's own signature reused by an altered justification copy of it
+	{
+		alt1 := proto.Clone(m.Msg).(*pbv1.QBFTMsg)
+		alt1.Round++
+		cp := cloneMsg(m)
+		cp.Justification = append(cp.Justification, alt1)
+		out = append(out, alt{class: "just-copy/of-top-message/round+1", msg: cp})
+	}
 	// signature taken from another message of the same signer
 	if len(m.GetJustification()) > 0 {
 		cp := cloneMsg(m)
@@ -559,6 +593,7 @@ func sortedKeys(m map[string][]byte) []string {
 // crafted returns validly signed messages (member or non-member keys) that must be refused for
 // reasons other than the signature, plus one that must be accepted.
 func crafted(cl *cluster.Cluster, duty core.Duty, n int, slot uint64) []alt {
+	nowSlot := uint64(time.Since(cl.Chain.GenesisTime) / cl.Cfg.SlotDuration) // the gater's notion of the current slot
 	val, _ := anypb.New(&pbv1.UnsignedDataSet{Set: map[string][]byte{"x": {1, 2, 3}}})
 	vh := valueHash(&pbv1.UnsignedDataSet{Set: map[string][]byte{"x": {1, 2, 3}}})
 	mk := func(class string, key *k1.PrivateKey, mut func(q *pbv1.QBFTMsg)) alt {
@@ -572,6 +607,8 @@ func crafted(cl *cluster.Cluster, duty core.Duty, n int, slot uint64) []alt {
 	return []alt{
 		mk("control/valid-signed-next-epoch-duty", k0, func(q *pbv1.QBFTMsg) { q.Duty = core.DutyToProto(core.NewAttesterDuty(slot + perEpoch)) }),
 		mk("window/far-future-duty", k0, func(q *pbv1.QBFTMsg) { q.Duty = core.DutyToProto(core.NewAttesterDuty(slot + 4*perEpoch)) }),
+		mk("window/first-slot-of-epoch-beyond-window", k0, func(q *pbv1.QBFTMsg) { q.Duty = core.DutyToProto(core.NewAttesterDuty((nowSlot/perEpoch + 3) * perEpoch)) }),
+		mk("control/last-slot-inside-window", k0, func(q *pbv1.QBFTMsg) { q.Duty = core.DutyToProto(core.NewAttesterDuty((nowSlot/perEpoch+3)*perEpoch - 1)) }),
 		mk("window/expired-duty", k0, func(q *pbv1.QBFTMsg) { q.Duty = core.DutyToProto(core.NewAttesterDuty(slot - 3*perEpoch)) }),
 		mk("duty/invalid-duty-type", k0, func(q *pbv1.QBFTMsg) { q.Duty = &pbv1.Duty{Slot: slot, Type: 99} }),
 		mk("duty/unknown-duty-type-zero", k0, func(q *pbv1.QBFTMsg) { q.Duty = &pbv1.Duty{Slot: slot, Type: 0} }),
